@@ -15,7 +15,7 @@ use crate::{
         Chain,
     },
     handler::Handler,
-    parse::utils::is_block_expr,
+    parse::utils::{is_block_expr, is_lower_precedence_than_method_call},
 };
 
 struct ActionExprPos<'a> {
@@ -993,11 +993,25 @@ impl<'a> JoinOutput<'a> {
 
                     let initial_expr = replaced_expr.as_ref().unwrap_or(initial_expr);
 
+                    //
+                    // Next actions will be appended as `.method()` calls, so initial value which
+                    // binds looser (`1 + 2`, `-1`, `&a`, `a as b` etc.) should be parenthesized.
+                    //
+                    let needs_parens = initial_expr
+                        .inner_exprs()
+                        .and_then(|exprs| exprs.first())
+                        .map(is_lower_precedence_than_method_call)
+                        .unwrap_or(false);
+
                     (
                         prev_def_stream
                             .map(|prev| quote! { #prev #def_stream })
                             .or(def_stream),
-                        quote! { #initial_expr },
+                        if needs_parens {
+                            quote! { (#initial_expr) }
+                        } else {
+                            quote! { #initial_expr }
+                        },
                     )
                 }
             }
